@@ -231,6 +231,7 @@ func (fr *Frame) exec(in ssa.Instruction, st *State, g string) {
 		m := fr.val(x.Map)
 		fr.safe("mapwrite", g, not(eq(m.t, nilPtr)), x.Pos(), "assignment to entry in nil map")
 		mt := x.Map.Type().Underlying().(*types.Map)
+		fr.mapRangeInsertCheck(x, st, g) // ext_crypto.go: no new key is inserted into a map while it is being ranged over
 		mh, mv := fc.mapComps(mt)
 		k, v := fr.val(x.Key), fr.val(x.Value)
 		hh := fc.comp(st, mh, fc.comps[mh])
@@ -246,6 +247,7 @@ func (fr *Frame) exec(in ssa.Instruction, st *State, g string) {
 		fr.panicInstr(x, st, g)
 	case *ssa.Range:
 		fr.vals[x] = SV{t: fr.val(x.X).t, typ: x.X.Type()}
+		fr.mapRangeInit(x, st) // ext_crypto.go: ghost visited set of a map range starts empty
 	case *ssa.Return:
 		fr.ret(x, st, g)
 	case *ssa.RunDefers:
@@ -637,6 +639,9 @@ func (fr *Frame) next(x *ssa.Next, st *State, g string) {
 		return
 	}
 	mt := rng.typ.Underlying().(*types.Map)
+	if fr.mapRangeNext(x, rng, mt, st, g) {
+		return // ext_crypto.go: iteration with a ghost visited set
+	}
 	mh, mv := fc.mapComps(mt)
 	k := fc.fresh(fr.name(x)+"_k", tc.sortOf(mt.Key()))
 	has := app("select", app("select", fc.comp(st, mh, fc.comps[mh]), rng.t), k)
@@ -1190,7 +1195,8 @@ func (fr *Frame) checkInvariants(li *loopInfo, e inEdge, kind string) {
 	st := fr.out[e.pred]
 	locals, addrs := fr.localsAt(li.header, e.pidx)
 	fr.curLocals, fr.curLocalAddrs = locals, addrs
-	defer func() { fr.curLocals, fr.curLocalAddrs = nil, nil }()
+	fr.curVisLoop = li
+	defer func() { fr.curLocals, fr.curLocalAddrs, fr.curVisLoop = nil, nil, nil }()
 	for _, a := range fr.autoInvariants(li, locals, st, func(p *ssa.Phi) SV { v := fr.val(p.Edges[e.pidx]); return v }) {
 		fc.oblige(fr, kind, fmt.Sprintf("L%d:auto", li.ordinal), e.guard, a, li.header.Instrs[0].Pos(), "automatic range bound", fr.props())
 	}
@@ -1217,7 +1223,8 @@ func (fr *Frame) assumeInvariants(li *loopInfo, st *State, g string) {
 	fc := fr.fc
 	locals, addrs := fr.localsAt(li.header, -1)
 	fr.curLocals, fr.curLocalAddrs = locals, addrs
-	defer func() { fr.curLocals, fr.curLocalAddrs = nil, nil }()
+	fr.curVisLoop = li
+	defer func() { fr.curLocals, fr.curLocalAddrs, fr.curVisLoop = nil, nil, nil }()
 	for _, a := range fr.autoInvariants(li, locals, st, func(p *ssa.Phi) SV { return fr.vals[p] }) {
 		fc.assume(g, a)
 	}
